@@ -1031,7 +1031,7 @@ func genKind(r *rand.Rand, kind string) core.Case {
 func genAll(r *rand.Rand, tier string, emit func(core.Case)) {
 	nSched, nHappy, nLock, nUnsafe := 1400, 600, 350, 150
 	if tier == "thorough" {
-		nSched, nHappy, nLock, nUnsafe = 7000, 3000, 1750, 750
+		nSched, nHappy, nLock, nUnsafe = 14000, 6000, 3500, 1500
 	}
 	for i := 0; i < nSched; i++ {
 		emit(genSched(r, tier == "thorough", false))
